@@ -367,10 +367,34 @@ class Gen:
 
 
 def default_value(cls, d: FDesc):
-    """The abstract value of a tagged field's default, obtained from kio itself."""
-    from kio.serial._implicit_defaults import get_tagged_field_default
-
-    for f in dataclasses.fields(cls):
-        if f.name == d.name:
-            return from_py(get_tagged_field_default(f))
-    raise KeyError(d.name)
+    """The abstract value of a tagged field's default, derived from the class description by the
+    harness itself (explicit default, else the Kafka implicit default of the type; a struct's
+    default is built from its members' defaults) - deliberately NOT through kio's
+    get_tagged_field_default, so that the reference encoder stays independent of it."""
+    if d.has_default:
+        return from_py(d.default)
+    if d.array:
+        return ("arr", [])
+    if d.nullable:
+        return NULL
+    if d.ent is not None:
+        return ("ent", [default_value(d.ent, nd) for nd in describe(d.ent)])
+    names = [f"{k.__module__}.{k.__qualname__}" for k in d.prim.__mro__]
+    for n in names:
+        if n in ("kio.static.primitive.i32Timedelta", "kio.static.primitive.i64Timedelta", "datetime.timedelta"):
+            return ("dur", 0)
+        if n in ("kio.static.primitive.TZAware", "datetime.datetime"):
+            return ("time", 0)
+        if n == "kio.static.primitive.f64" or n == "builtins.float":
+            return ("f64", 0)
+        if n == "uuid.UUID":
+            return ("uuid", bytes(16))
+        if n == "builtins.bool":
+            return ("bool", False)
+        if n == "builtins.str":
+            return ("str", b"")
+        if n == "builtins.bytes":
+            return ("bytes", b"")
+        if n == "builtins.int":
+            return ("int", 0)
+    raise KeyError(f"no implicit default for {d.prim!r}")
